@@ -85,6 +85,11 @@ func init() {
 				}
 			}
 			cases = append(cases, randomCases(r, r.pick(10, 200))...)
+			// the same metadata when the file is generated into another package (the file is post-processed then)
+			cases = append(cases, separate(descgen.CuratedByName("k8"), false), separate(descgen.CuratedByName("k9"), true))
+			for k := 0; k < r.pick(2, 10); k++ {
+				cases = append(cases, separate(descgen.Random(r.Seed, 500+k, descgen.RandOpt{}), k%2 == 0))
+			}
 			r.generate(cases)
 			r.compile(cases)
 			r.drive("C10", cases, 0)
